@@ -164,6 +164,7 @@ def run(pid, tier, seed, replay, t0):
 
     # ---------------- L2 + L3 per section -----------------------------------------------------
     violations = []  # dicts
+    glue_breaks = []  # sections whose correspondence could not be run because the harness no longer binds to the code
     known_hits = []
     sec_reports = []
     total_eval = 0
@@ -206,7 +207,12 @@ def run(pid, tier, seed, replay, t0):
             keys = set()
             n_dis = 0
             n_orc = 0
+            glue = [io for io in impl_obs + model_obs if isinstance(io, dict) and io.get("glue")]
+            if glue:
+                glue_breaks.append(dict(section=sec.name, theorems=sec.theorems, cases=len(glue), of=len(cases), msg=sorted({g["msg"] for g in glue})[:5]))
             for (src, c), io, mo in zip(cases, impl_obs, model_obs):
+                if (isinstance(io, dict) and io.get("glue")) or (isinstance(mo, dict) and mo.get("glue")):
+                    continue  # the harness could not observe this case: nothing to judge (reported once per section below)
                 if sec.describe:
                     b = sec.describe(c, io)
                     for bb in b if isinstance(b, (list, tuple)) else [b]:
@@ -252,6 +258,8 @@ def run(pid, tier, seed, replay, t0):
                         if budget < 0:
                             break
                         io2 = C.guarded(sec.impl, c2)
+                        if isinstance(io2, dict) and io2.get("glue"):
+                            continue
                         try:
                             why2 = sec.oracle(c2, io2)
                         except Exception as e:
@@ -296,6 +304,17 @@ def run(pid, tier, seed, replay, t0):
             rp.write_text(C.jdump(dict(property=pid, kind="no-failing-input-found", section=sname, broken=f"correspondence model~implementation for section {sname} (transfers theorems {', '.join(sec.theorems)})", input=v["input"], impl_output=v["impl_output"], model_output=v["model_output"], oracle="the independent oracle accepted the implementation's behaviour on every disagreeing input and on their searched variants", seed=seed, disagreeing_cases=len(only_dis)), indent=1))
             out_lines.append(f"VIOLATION property={pid} replay={rp} no-failing-input-found")
             n_viol += 1
+    for gb in glue_breaks:
+        # the correspondence of this section can no longer be run (the harness binds to something that is not there any more):
+        # not a failing input, but the section's theorems are no longer transferred to the code
+        if any(v["oracle"] for v in by_sec.get(gb["section"], [])):
+            continue
+        nrep += 1
+        rp = C.REPLAYS / f"{pid}-{seed}-{nrep}.json"
+        rp.write_text(C.jdump(dict(property=pid, kind="no-failing-input-found", section=gb["section"], broken=f"correspondence model~implementation for section {gb['section']} (transfers theorems {', '.join(gb['theorems'])}) could not be run on {gb['cases']} of {gb['of']} cases: the harness no longer binds to the implementation", harness_errors=gb["msg"], input=None, oracle="every section that could still be run found no failing input" if not n_viol else "see the other replays of this run", seed=seed), indent=1))
+        if not any(l.startswith("VIOLATION") and "no-failing-input-found" not in l for l in out_lines):
+            out_lines.append(f"VIOLATION property={pid} replay={rp} no-failing-input-found")
+        n_viol += 1
     if l1_problems:
         nrep += 1
         rp = C.REPLAYS / f"{pid}-{seed}-{nrep}.json"
@@ -326,6 +345,7 @@ def run(pid, tier, seed, replay, t0):
             trusted_base=["Lean 4.33.0 kernel", "axioms allowed: propext, Classical.choice, Quot.sound (audited per theorem on every run)", "hand-written Lean model, tied to /repo by the correspondence run below (finite sample per run)", "harness generators, canonicalisers and independent oracles", *chk.trusted],
             theorems={t: audit.get(t, {}).get("axioms") for t in chk.theorems},
             l1_problems=l1_problems,
+            glue_breaks=glue_breaks,
             evaluations=total_eval,
             distinct_nontrivial=total_nontrivial,
             rule="; ".join(f"[{s.name}] {s.rule}" for s in chk.sections if s.rule),
